@@ -112,6 +112,15 @@ CONFIGS["stacked3_slots"] = {"deps": {"A": {"locs": {"a0": {"slots": 1}, "a1": {
                                       "W": {"wraps": "M", "locs": {"w0": {"cores": 2, "memory": 2, "storage": {"/": 8.0}},
                                                                    "w1": {"cores": 2, "memory": 2, "storage": {"/": 8.0}}}}},
                              "targets": [("W", 1)], "req": {"cores": 1, "memory": 1, "out": 0, "tmp": 0}}
+# two deployments whose capacity is one shared location: two wrappers on the same inner host (V, W over A), and the inner
+# deployment targeted directly next to a wrapper on it
+CONFIGS["two_wrappers"] = {"deps": {"A": {"locs": {"a0": {"cores": 1, "memory": 2, "storage": {"/": 8.0}}}},
+                                    "V": {"wraps": "A", "locs": {"v0": {"cores": 2, "memory": 2, "storage": {"/": 8.0}}}},
+                                    "W": {"wraps": "A", "locs": {"w0": {"cores": 2, "memory": 2, "storage": {"/": 8.0}}}}},
+                           "targets": [("V", 1), ("W", 1)], "req": {"cores": 1, "memory": 1, "out": 0, "tmp": 0}}
+CONFIGS["inner_and_wrapper"] = {"deps": {"A": {"locs": {"a0": {"cores": 1, "memory": 2, "storage": {"/": 8.0}}}},
+                                         "W": {"wraps": "A", "locs": {"w0": {"cores": 2, "memory": 2, "storage": {"/": 8.0}}}}},
+                                "targets": [("A", 1), ("W", 1)], "req": {"cores": 1, "memory": 1, "out": 0, "tmp": 0}}
 PROBE_CONFIGS = ("stacked_shared", "stacked_slots_shared")
 
 
@@ -370,6 +379,8 @@ def run(params, prefix):
 
 def key_base(params):
     extra = f"|cores={params['job_cores']}" if params.get("job_cores") else ""
+    if params.get("job_targets") and params["config"] in ("two_wrappers", "inner_and_wrapper"):
+        extra += f"|targets={params['job_targets']}"
     return f"config={params['config']}|scripts={'+'.join(params['scripts'])}{extra}"  # same key in full and idle-only mode
 
 
@@ -381,7 +392,7 @@ def cases(tier, retry_delay=0):
     pairs = [("ok", "ok"), ("dup_done", "ok"), ("recover", "ok"), ("fail_dup", "ok"), ("recover", "recover_fireable"),
              ("cancel", "dup_running"), ("fail_fireable", "ok"), ("recover", "dup_done"),
              ("rollback_running", "ok"), ("rollback_fireable", "ok"), ("rollback_then_failed", "ok")]
-    cfgs = [c for c in CONFIGS if c not in PROBE_CONFIGS and c not in ("hw2cores", "xy")]
+    cfgs = [c for c in CONFIGS if c not in PROBE_CONFIGS and c not in ("hw2cores", "xy", "two_wrappers", "inner_and_wrapper")]
     for c in PROBE_CONFIGS:
         out.append({"config": c, "scripts": ["ok", "ok"], "bound": 0, "retry_delay": retry_delay})
     for c in cfgs:
@@ -412,6 +423,13 @@ def cases(tier, retry_delay=0):
                 "job_targets": [[0], [1], [0, 1], [0]], "prefix_ops": pre, "bound": 1, "retry_delay": retry_delay})
     out.append({"config": "xy", "scripts": ["ok", "ok", "ok", "ok"], "job_cores": [2, 1, 1, 1],
                 "job_targets": [[0], [1], [0, 1], [0]], "prefix_ops": pre, "bound": 0 if quick else 1, "retry_delay": retry_delay})
+    # two deployments sharing one location: each job is bound to ONE of them, so the second waits for a release that
+    # happens through the other deployment
+    for c in ("two_wrappers", "inner_and_wrapper"):
+        for sc in ([("ok", "ok"), ("recover", "ok")] if quick else [("ok", "ok"), ("recover", "ok"), ("fail_dup", "ok"), ("rollback_running", "ok"),
+                                                                    ("cancel", "ok")]):
+            out.append({"config": c, "scripts": list(sc), "job_cores": [1, 1], "job_targets": [[0], [1]], "bound": 1, "retry_delay": retry_delay})
+            out.append({"config": c, "scripts": list(sc), "job_cores": [1, 1], "job_targets": [[1], [0]], "bound": 1, "retry_delay": retry_delay})
     # deeper bound in the idle-only sub-space (I/O completes only when no callback is ready)
     deep = []
     for c in out:
